@@ -52,7 +52,11 @@ def render(stmts, mask=0, only=None, local_mask=0):
                 joiner = ("," + sep) if commas else sep
                 if wrap:
                     joiner = joiner.rstrip(" \t") + eol + ind + "      " + ("# wrapped" + eol + "  " if comments else "")
-                toks.append(joiner.join(t))
+                ptxt = joiner.join(t)
+                if wrap and k % 2 == 0:
+                    # the parameter list may also start on the line after the model name (which is then the last token of its line)
+                    ptxt = eol + ind + "    " + ptxt
+                toks.append(ptxt)
             elif t == ";":
                 toks[-1] = toks[-1] + (" ;; ;" if semis else ";")
             else:
